@@ -133,17 +133,17 @@ Definition res_eqb2 {A B} (eqb : A -> B -> bool) (a : res A) (b : res B) : bool 
 Definition opt_eqb {A} (eqb : A -> A -> bool) (a : option A) (b : A) : bool :=
   match a with Some x => eqb x b | None => false end.
 
-(* the model wrote exactly the observed objects: [st'] = model's store after, [st] before *)
+(* the model wrote exactly the observed objects, in the observed order: [st'] = the model's
+   store after, [st] before; [puts] = the ArchiveStore.Put calls of the implementation *)
+Definition entry_of (p : bytes * N * N) : bytes * option (N * N) := (fst (fst p), Some (snd (fst p), snd p)).
+Definition entry_eqb (a b : bytes * option (N * N)) : bool :=
+  bytes_eqb (fst a) (fst b)
+  && option_eqb (fun x y => (fst x =? fst y) && (snd x =? snd y)) (snd a) (snd b).
 Definition puts_match (st st' : astore) (puts : list (bytes * N * N)) : bool :=
-  Nat.eqb (length st' - length st) (length puts)
-  && forallb (fun p => match p with (k, b, sz) =>
-                match get N st' k with Some (b', sz') => (b' =? b) && (sz' =? sz) | None => false end end) puts.
+  list_eqb entry_eqb (firstn (length st' - length st) st') (rev (map entry_of puts)).
 
 Definition read_consumed (tbl : list body_info) (st : astore) (key : bytes) (maxb : N) : N :=
-  match get N st key with
-  | None => 0
-  | Some (b, sz) => if (sz =? 0) || (maxb <? sz) then 0 else N.min (id_blen tbl b) (maxb + 1)
-  end.
+  read_pulled N (id_blen tbl) st key maxb.
 
 Definition astep_mismatch (tbl : list body_info) (st : astore) (o : aop) : bool :=
   negb match o with
@@ -361,10 +361,26 @@ Definition cstep_monitor (o : cop) : N :=
   | CKey _ _ | CSlotKey _ _ _ | CIdent _ _ | CSha _ _ => true
   end then 0 else 1.
 
+(* well-formedness of an archive case: every body a write mentions is in the table, and a
+   body that canonically decodes as a COMPLETE marker is a non-empty object within the cap *)
+Definition aop_ids_ok (n : N) (o : aop) : bool :=
+  match o with
+  | APut _ b _ => b <? n
+  | AEnsure _ _ _ puts | APublish _ _ puts => forallb (fun p => snd (fst p) <? n) puts
+  | _ => true
+  end.
+Definition tbl_wf (tbl : list body_info) : bool :=
+  forallb (fun x => match bi_marker x with
+                    | Some (_, true) => (0 <? bi_len x) && (bi_len x <=? maxStoredManifestBytes)
+                    | _ => true
+                    end) tbl.
+Definition case_wf (tbl : list body_info) (ops : list aop) : bool :=
+  tbl_wf tbl && forallb (aop_ids_ok (N.of_nat (length tbl))) ops.
+
 Definition C38_mismatch (c : c38_case) : bool :=
   match c with
   | CaseCodec ops => existsb cstep_mismatch ops
-  | CaseArchive tbl ops => arun_mismatch tbl [] ops
+  | CaseArchive tbl ops => negb (case_wf tbl ops) || arun_mismatch tbl [] ops
   end.
 
 Fixpoint first_code {A} (f : A -> N) (l : list A) : N :=
